@@ -54,9 +54,11 @@ def tasks(tier, seed):
     for t in c07.tasks(tier, seed):
         if t[7] is None or quick:
             T.append(('ctrl', t))
-    for cfg in ([(1, 1, 2, 'full_abs'), (2, 1, 2, 'last_abs'), (1, 2, 2, 'full_abs')] if quick else
-                [(1, 1, 2, 'full_abs'), (2, 1, 2, 'last_abs'), (2, 1, 3, 'full_rel'), (1, 2, 2, 'full_abs'), (2, 2, 2, 'full_abs'), (3, 1, 2, 'full_abs')]):
-        T.append(('fresh',) + cfg)
+    for cfg in ([(1, 1, 3, 'full_abs'), (2, 1, 2, 'last_abs'), (2, 1, 3, 'full_abs'), (1, 2, 2, 'full_abs'), (2, 2, 2, 'full_abs')] if quick else
+                [(1, 1, 4, 'full_abs'), (2, 1, 3, 'last_abs'), (2, 1, 3, 'full_rel'), (2, 1, 4, 'full_abs'), (1, 2, 3, 'full_abs'), (2, 2, 3, 'full_abs'),
+                 (3, 1, 3, 'full_abs'), (3, 2, 2, 'full_abs')]):
+        for jac in ((True, False) if cfg[0] > 1 and cfg[1] == 1 else (True,)):
+            T.append(('fresh',) + cfg + (jac,))
     return T
 
 
